@@ -434,9 +434,15 @@ def bytes_(local, sc, cfg, hev, wire):
             if hstack[r]:
                 hstack[r].pop()
         elif k == "k:lp+":
-            # a local_progress the program did not call (e.g. from inside a back-pressure wait) is no flush point
-            user = bool(hstack[r]) and hstack[r][-1] in ("P", "W")
+            # a local_progress the program did not call (e.g. from inside a back-pressure wait) is no flush point —
+            # unless it runs directly inside barrier(), which is a flush point as a whole
+            user = (bool(hstack[r]) and hstack[r][-1] in ("P", "W")) or (bool(win[r]) and win[r][-1] == "ba")
             win[r].append("lp" if user else "lx")
+        elif k == "k:bar+":
+            win[r].append("ba")
+        elif k == "k:bar-":
+            if win[r] and win[r][-1] == "ba":
+                win[r].pop()
         elif k in ("k:as+", "k:bc+", "k:hnr+", "k:fl+"):
             win[r].append(k[2:4])
         elif k in ("k:as-", "k:bc-", "k:hnr-", "k:fl-", "k:lp-"):
@@ -459,7 +465,7 @@ def bytes_(local, sc, cfg, hev, wire):
             lab = f"sendDone {r} {ev.f[0]}"
         elif k == "k:fsb":
             inner = win[r][-1] if win[r] else None
-            if inner in ("fl", "lp"):
+            if inner in ("fl", "lp", "ba"):
                 lab = f"pointsend {r} {ev.f[0]} {ev.f[1]}"
             else:
                 lab = f"capsend {r} {ev.f[0]} {ev.f[1]}"
